@@ -203,9 +203,10 @@ def search(ops: list[list[str]], limit: int = 120, budget_s: float = 25.0):
         n += 1
         if res is None:
             res = in_child(lambda sch=sch: run_schedule(ops, sch), timeout=40)
-            if res is None and all(e is not None for e in expected):
-                return n, (sch, HANG, expected)
-            continue
+            if res is None:
+                if all(e is not None for e in expected):
+                    return n, (sch, HANG, expected)
+                continue
         if res[0] != expected:
             # compress the schedule for the replay
             return n, (sch, res[0], expected)
